@@ -106,6 +106,7 @@ func vC25_delivery_roundtrip() {
 	if err != nil {
 		return
 	}
+	known := true
 	switch g := got.(type) {
 	case *RegisterConsumer:
 		vAssert(kind == 0 && g.Nonce() == nonce, "RegisterConsumer survives")
@@ -122,8 +123,9 @@ func vC25_delivery_roundtrip() {
 			vCover("chunked")
 		}
 	default:
-		vAssert(false, "the decoded value is a delivery command")
+		known = false
 	}
+	vAssert(known, "the decoded value is a delivery command")
 	vCover("end")
 }
 
